@@ -52,11 +52,13 @@ class ProtocolType(Protocol):
 @cache
 def get_protocol(protocol_version: str) -> ProtocolType:
     """Return the protocol module for the protocol_version."""
+    # Use "not <" instead of ">=". AwesomeVersion("2.2.0") >= AwesomeVersion("2.2")
+    # is False, which would select the previous protocol for every x.y.0 release.
     module = next(
         (
             PROTOCOL_VERSIONS[_protocol_version]
             for _protocol_version in sorted(PROTOCOL_VERSIONS, reverse=True)
-            if AwesomeVersion(protocol_version) >= AwesomeVersion(_protocol_version)
+            if not AwesomeVersion(protocol_version) < AwesomeVersion(_protocol_version)
         ),
         protocol_14,
     )
